@@ -4,6 +4,18 @@ import json, os, sys, subprocess
 V = os.path.dirname(os.path.dirname(os.path.abspath(__file__)))
 sys.path.insert(0, os.path.join(V, "tools"))
 from registry import PROPS, NOT_APPLICABLE, HOOK_COMMITS
+def hook_commits():
+    out = []
+    try:
+        log = subprocess.check_output(["git", "-C", "/repo", "log", "--format=%h", "--reverse", "87500ae..HEAD"], text=True).split()
+        for h in log:
+            files = subprocess.check_output(["git", "-C", "/repo", "show", "--name-only", "--format=", h], text=True).split()
+            if files and all(f.endswith("_verif.go") for f in files):
+                out.append(h)
+    except Exception:
+        return HOOK_COMMITS
+    return out
+HOOK_COMMITS = hook_commits() or HOOK_COMMITS
 ids = [json.loads(l)["id"] for l in open(os.path.join(V, "properties.jsonl"))]
 checks = []
 for pid in ids:
